@@ -165,7 +165,7 @@ def regenerate_registration():
             continue
         deps = harness_deps(pid)
         src = "// GENERATED by tools/common.py: harness binary of %s\n#![allow(dead_code, unused_imports)]\n" % pid
-        src += "pub use stam_verif_harness::{out, rng, sx};\n"
+        src += "pub use stam_verif_harness::{out, rng, storegen, sx};\n"
         for d in sorted(deps):
             src += "#[path = \"../%s.rs\"]\npub mod %s;\n" % (d, d)
         src += ("fn main() {\n    stam_verif_harness::run_main(\n        |reqs, out| {\n            let ctx = %s::Ctx::new();\n"
